@@ -647,6 +647,15 @@ def gen_world(rng, layout: str, **opt: Any) -> dict:
         if nm.casefold() not in seen:
             seen.add(nm.casefold())
             names.append(nm)
+    # boundary classes chosen from what is already drawn (no extra rng draws, so every other world stays byte-identical):
+    # a texture name of exactly 127 / 126 characters (the longest that fits the 128-byte buffer with its terminator)
+    _h = sum(map(ord, names[0])) + len(names)
+    if _h % 6 == 0 and all(ord(c) < 0xDC80 for c in names[0]):
+        want_len = 127 if _h % 12 == 0 else 126
+        padded = (names[0] * (want_len // len(names[0]) + 1))[:want_len]
+        if padded.casefold() not in seen:
+            seen.add(padded.casefold())
+            names[0] = padded
     W['texstrings'] = names
     W['texdata'] = [{'refl': [abs(rfloat(rng, False)) for _ in range(3)], 'name': rng.randrange(len(names)),
                      'w': rng.choice((16, 64, 512, 1024)), 'h': rng.choice((16, 64, 512, 2048))} for _ in range(cnt(1, 2))]
@@ -682,6 +691,12 @@ def gen_world(rng, layout: str, **opt: Any) -> dict:
     W['hdr_mode'] = hdr
     faceids = opt.get('faceids', 'full' if rng.random() < 0.8 else 'empty')
     W['faceids'] = [rng.randrange(1, imax) for _ in range(n_faces)] if faceids == 'full' else []
+    # boundary class: Hammer face ID 0 is a value of its own, not "no ID" (all zero, or zero for every other face)
+    if W['faceids'] and 'faceids' not in opt:
+        if _h % 10 == 3:
+            W['faceids'] = [0] * n_faces
+        elif _h % 10 == 7:
+            W['faceids'] = [0 if i % 2 == 0 else v for i, v in enumerate(W['faceids'])]
     # brushes: each brush owns a consecutive run of sides
     sides: List[dict] = []
     brushes = []
